@@ -324,6 +324,21 @@ def subtree(args):
                 sample=(model_in[:6] if model_in else []), topup=[(k, v) for k, v in topup_cases.items()][:60])
 
 
+def random_small_sets(seed, n):
+    """random point sets sitting on the guards of split(): between 2 n_min and 4 n_min points, a blob plus zero to n_min stragglers"""
+    out = []
+    for i in range(n):
+        r = np.random.default_rng([seed, i])
+        d = int(r.integers(2, 5))
+        nmin = int(r.integers(d + 1, d + 6))
+        npts = 2 * nmin + int(r.integers(0, 2 * nmin + 2))
+        k = int(r.integers(0, min(nmin, npts // 2) + 1))
+        c1, c2 = r.random(d) * 0.6 + 0.2, r.random(d) * 0.6 + 0.2
+        pts = np.clip(np.vstack([c1 + r.choice([0.01, 0.03, 0.1]) * r.normal(size=(npts - k, d)), c2 + r.choice([0.01, 0.05, 0.15]) * r.normal(size=(k, d))]), 1e-6, 1 - 1e-6)
+        out.append(('random-%dd-n%d-min%d-k%d-#%d' % (d, npts, nmin, k, i), pts[r.permutation(npts)], nmin))
+    return out
+
+
 def fmt_seq(seq):
     return ['split(allow_overlap=%s)' % a if o == 'S' else ('trim(%g)' % a if o == 'T' else 'sample(%d)' % a) for o, a in seq]
 
@@ -335,6 +350,11 @@ def main(run: Run, audit):
     for name, pts, nmin in sets:
         for first in OPS:
             tasks.append((name, pts, nmin, first, maxlen, 7 + (run.seed % 1000), run.tmp, len(tasks)))
+    rsets = random_small_sets(run.seed, 24 if run.tier == 'quick' else 400)
+    for name, pts, nmin in rsets:
+        for first in OPS:
+            tasks.append((name, pts, nmin, first, 3, 7 + (run.seed % 1000), run.tmp, len(tasks)))
+    sets = sets + rsets
     with Pool(16) as pool:
         results = pool.map(subtree, tasks, chunksize=1)
     tot = {}
@@ -347,7 +367,7 @@ def main(run: Run, audit):
     run.cov.update(evaluations=tot.get('sequences', 0), distinct_nontrivial=tot.get('split_ok', 0) + tot.get('trim_ok', 0) + tot.get('refused_overlap', 0) + tot.get('blocked', 0),
                    rule='all sequences of length <= %d over {split(True), split(False), trim(1e3), trim(1.5), sample(50)} on %d point sets, run as a prefix tree; '
                         'non-trivial = operations that changed a record (successful splits, trims, blocked attempts) or were refused for overlap' % (maxlen, len(sets)),
-                   exhaustive=True, max_length=maxlen, point_sets=[s[0] for s in sets], operation_distribution=tot, comparisons=n_cmp,
+                   exhaustive=True, max_length=maxlen, point_sets=[s[0] for s in sets][:40], n_point_sets=len(sets), random_small_sets=len(rsets), operation_distribution=tot, comparisons=n_cmp,
                    disagreements_checked=len(mism), direct_predicate_failures=sum(r['n_fails'] for r in results),
                    samples=[r['sample'] for r in results[:2]])
     # label-repair model inside Coq: TopUp.topup on the labels before the repair and the ranking oracle = installed partition
